@@ -104,7 +104,7 @@ func init() {
 	}
 }
 
-const kfNulPanic = "KF-C06-nul-byte-in-stream-panics"
+const kfNulPanic = "FX-C06-nul-byte-in-stream-panics"
 
 // entry points that read through the stream decoder
 var streamSteps = map[string]bool{"Decoder.Decode": true, "Valid": true, "Decoder(UseNumber,Disallow)": true, "Decoder.Token": true,
